@@ -417,6 +417,19 @@ def _run(case, modname):
         g = sut(read, o, b, x)
         if is_raised(g) or tg.first_diff(spec_of(o, b), exps[i], g):
             return fail("unpickled_changed_by_allocation", f"object {i}: {g if is_raised(g) else tg.first_diff(spec_of(o, b), exps[i], g)}", "", labels)
+    # ---- pickling must not alter what was pickled: a second dump of the originals works, gives equal objects, and the
+    #      originals' context still hands out buffers
+    blob2 = sut(pickle.dumps, tuple(objs), case["proto"])
+    if is_raised(blob2):
+        return fail("second_pickle_raised", f"{blob2}", blob2.key, labels)
+    again = sut(pickle.loads, blob2)
+    if is_raised(again):
+        return fail("unpickle_raised", f"second round: {again}", again.key, labels)
+    octx = bufs[0].context
+    nb2 = sut(octx.new_buffer, 64)
+    if is_raised(nb2):
+        return fail("original_context_broken_by_pickling", f"new_buffer after pickling: {nb2}", nb2.key, labels)
+    labels.add("second_pickle")
     # ---- fresh interpreter
     if case.get("fresh"):
         labels.add("fresh_interpreter")
